@@ -59,6 +59,13 @@ def write_replay(pid: str, beh: Any, v: Dict[str, Any]) -> str:
     os.makedirs(d, exist_ok=True)
     key = hashlib.md5(json.dumps([v["kind"], v["a"], v["en"], str(v["g"]), v["cell"], v["flags"]],
                                  sort_keys=True).encode()).hexdigest()[:8]
+    if beh == "ctwin":
+        path = os.path.join(d, f"{pid}_{v['kind']}_{v['tid']}.ndjson")
+        with open(v["file"]) as src, open(path, "w") as dst:
+            for ln in src:
+                if json.loads(ln)["pair"] == v["tid"]:
+                    dst.write(ln)
+        return path
     if beh is None:
         # a recorded execution: keep the lines of that trace up to the failing one
         path = os.path.join(d, f"{pid}_{v['kind']}_{v['a']}_{key}.ndjson")
@@ -205,6 +212,45 @@ def run_replay_check(pid: str, tier: str, seed: int) -> int:
             known[f["id"]] = known.get(f["id"], 0) + 1
         else:
             unknown.append((v, None))
+    # ---- 4c. (C08) contraction twins on continuous-parameter programs, judged by CTwin.tla
+    ctw_pairs = 0
+    if plan.get("ctwins"):
+        import re
+        from concurrent.futures import ThreadPoolExecutor
+        import subprocess
+
+        nprog, nst = plan["ctwins"][tier]
+        procs = 12
+        per = max(1, nprog // procs)
+        env = dict(os.environ)
+        env.update({"PYTHONPATH": "/repo:" + ROOT, "PHOTON_WEAVE_VERIF": "1", "PYTHONHASHSEED": "0"})
+
+        def one(k: int) -> str:
+            path = os.path.join(trace_dir, f"ctw{k}.ndjson")
+            p = subprocess.run(["/venv/bin/python", "-m", "harness.ctwins", str(seed * 40 + k), str(per), str(nst), path],
+                               cwd=ROOT, env=env, capture_output=True, text=True)
+            if p.returncode != 0:
+                raise Machinery("contraction-twin driver failed:\n" + p.stderr[-1500:])
+            return path
+
+        with ThreadPoolExecutor(max_workers=procs) as ex:
+            cfiles = list(ex.map(one, range(procs)))
+        for pth in cfiles:
+            rc, out = tlcrun.tlc("CTwin", "CTwin.cfg", ["-workers", "1"], timeout=1200, env={"TRACE_FILE": pth})
+            m = re.search(r'<<"CONSUMED", (\d+)>>', out)
+            if not m or "Error:" in out:
+                raise Machinery("contraction-twin validation failed:\n" + out[-1500:])
+            ctw_pairs += int(m.group(1))
+            for mm in re.finditer(r'<<"CTWIN", (\d+), (\d+), "(\w+)">>', out):
+                v = {"props": [pid], "kind": "ContractionNeutral", "step": int(mm.group(2)), "a": mm.group(3), "en": None, "g": None,
+                     "cell": "", "flags": {}, "tid": int(mm.group(1)), "file": pth,
+                     "detail": f"program {mm.group(1)}: joint state with contraction on differs from contraction off after step "
+                               f"{mm.group(2)} ({mm.group(3)})"}
+                f = findings.classify(pid, v, kf)
+                if f is not None:
+                    known[f["id"]] = known.get(f["id"], 0) + 1
+                else:
+                    unknown.append((v, "ctwin"))
     for fid, n in sorted(known.items()):
         f = [x for x in kf if x["id"] == fid][0]
         print(f"KNOWN-FINDING: property={pid} {fid} {f['what']} (hit {n}x)")
@@ -235,6 +281,7 @@ def run_replay_check(pid: str, tier: str, seed: int) -> int:
             "behaviours_not_followed_open_choice": notfollowed,
             "implementation_steps_compared": steps,
             "trace_lines_validated_by_tlc": tstats["lines"],
+            "contraction_twin_programs_judged_by_tlc": ctw_pairs,
             "distinct_nontrivial": len(relevant_cells),
             "evaluations": steps,
             "rule": "one case = (action, entry point, kind:storage:level of each addressed subsystem as observed "
@@ -281,6 +328,27 @@ def run_trace_check(pid: str, tier: str, seed: int) -> int:
         ex_total["distinct"] += st["distinct"]
         ex_total["depth"] = max(ex_total["depth"], st["depth"])
         ex_desc.append(f"{u} depth {depth} families {fam}: {st['distinct']} distinct / {st['generated']} generated")
+    if plan.get("layout"):
+        # the code-shaped registry model: every history of composite creation / merge / combine / measure
+        ne, nc, mh, ms = plan["layout"][tier]
+        lcfg = os.path.join(OUT, f"{pid}_{tier}_layout.cfg")
+        with open(lcfg, "w") as fh:
+            fh.write(f'CONSTANTS\n  NEnvL = {ne}\n  NCus = {nc}\n  MaxH = {mh}\n  MaxSteps = {ms}\n  Fault = "none"\n'
+                     "INIT LInit\nNEXT LNext\nINVARIANT Truthful\nPROPERTY StepClauses\nCHECK_DEADLOCK FALSE\n")
+        st, _ = tlcrun.check("PWLayout", lcfg, workers=16, timeout=3000)
+        ex_total["generated"] += st["generated"]
+        ex_total["distinct"] += st["distinct"]
+        ex_desc.append(f"PWLayout {ne} envelopes + {nc} custom, {mh} handles, {ms} calls: {st['distinct']} distinct / {st['generated']} generated")
+        # non-vacuity: each defect the pinned code had must be refuted by TLC on the model
+        for fault in plan.get("layout_faults", {}).get(tier, []):
+            fcfg = os.path.join(OUT, f"{pid}_{tier}_layout_{fault}.cfg")
+            with open(fcfg, "w") as fh:
+                fh.write(f'CONSTANTS\n  NEnvL = {ne}\n  NCus = {nc}\n  MaxH = {mh}\n  MaxSteps = 4\n  Fault = "{fault}"\n'
+                         "INIT LInit\nNEXT LNext\nINVARIANT Truthful\nCHECK_DEADLOCK FALSE\n")
+            rc, out = tlcrun.tlc("PWLayout", fcfg, ["-workers", "16"], timeout=3000)
+            if "Invariant Truthful is violated" not in out:
+                raise Machinery(f"PWLayout with fault {fault} was not refuted by TLC: the invariants are vacuous")
+            ex_desc.append(f"PWLayout fault '{fault}': refuted by TLC (Truthful violated)")
     trace_dir = os.path.join(OUT, f"traces_{pid}_{tier}")
     shutil.rmtree(trace_dir, ignore_errors=True)
     os.makedirs(trace_dir)
@@ -366,7 +434,8 @@ def run_trace_check(pid: str, tier: str, seed: int) -> int:
             "samples": sample_lines,
             "exhaustive": False,
             "spec_exhaustive_runs": ex_desc,
-            "trace_lines_validated_by_tlc": tstats["lines"], "trace_files": tstats["files"],
+            "trace_lines_validated_by_tlc": tstats["lines"],
+            "trace_files": tstats["files"],
             "sources": {"replayed_tlc_behaviours": gen_desc, "random_programs": f"{nprog} programs x {nsteps} steps",
                         "repository_test_suite": tier == "thorough" and plan.get("repo_tests", True)},
             "clauses": sorted(k for k, v in tracecheck.CLAUSE_PROP.items() if v == pid),
